@@ -102,7 +102,15 @@ fn run_chaos<K: KeyT, V: ValT>(prop: Prop, spec: &RunSpec, seed: u64) -> RunOutc
     begin_run();
     let mut out = RunOutcome::default();
     let mut w: World<K, V> = World::new(&spec.cfg);
-    ctx::with(|c| c.chaos = Some(ctx::Chaos::from_seed(seed)));
+    ctx::with(|c| {
+        let mut ch = ctx::Chaos::from_seed(seed);
+        if K::CLASS.is_zst() {
+            // zero-sized keys: a lying Eq is what makes collections of several elements
+            ch.kind |= 4;
+            ch.pct = ch.pct.max(25);
+        }
+        c.chaos = Some(ch);
+    });
     let hmode = spec.cfg.map_hashers.first().or(spec.cfg.set_hashers.first()).map_or(0, |h| h.mode as u8);
     let mut stopped = false;
     for (i, op) in spec.ops.iter().enumerate() {
